@@ -66,4 +66,65 @@ pub proof fn axiom_ustr_key_eq(a: Ustr, b: Ustr)
     ensures key_eq(a, b) == (a == b)
 { }
 
+/// `"..".into()`: interning a string slice
+impl From<&str> for Ustr {
+    #[verifier::external_body]
+    fn from(s: &str) -> (r: Ustr)
+        ensures r@ == s@
+    { unimplemented!() }
+}
+
+/// derived Clone of dfa::Inp returns an equal value
+impl Clone for Inp {
+    #[verifier::external_body]
+    fn clone(&self) -> (r: Inp)
+        ensures r == *self
+    { unimplemented!() }
+}
+
+/// x is in the set stored under k
+pub open spec fn has(m: std::collections::BTreeMap<u32, RoaringBitmap>, k: u32, x: u32) -> bool {
+    m@.contains_key(k) && m@[k]@.contains(x)
+}
+
+/// `V[I].entry(K).or_default().insert(X)` on a vector of per-level tables (rule R42): indexing
+/// panics unless I < V.len() -- that is the precondition; the set under K of table I gains X,
+/// everything else stays
+#[verifier::external_body]
+pub fn __level_insert(v: &mut Vec<std::collections::BTreeMap<u32, RoaringBitmap>>, i: usize, k: u32, x: u32)
+    requires i < old(v)@.len()
+    ensures
+        final(v)@.len() == old(v)@.len(),
+        forall|j: int, k2: u32, x2: u32| 0 <= j < old(v)@.len() ==> (#[trigger] has(final(v)@[j], k2, x2) <==> has(old(v)@[j], k2, x2) || (j == i && k2 == k && x2 == x)),
+{ unimplemented!() }
+
+/// x is in the list stored under k
+pub open spec fn hasv(m: std::collections::BTreeMap<u32, Vec<usize>>, k: u32, x: usize) -> bool {
+    m@.contains_key(k) && m@[k]@.contains(x)
+}
+
+/// `V[I].entry(K).or_default().push(X)` (rule R42, list form): the list under K of table I gains X
+#[verifier::external_body]
+pub fn __level_push(v: &mut Vec<std::collections::BTreeMap<u32, Vec<usize>>>, i: usize, k: u32, x: usize)
+    requires i < old(v)@.len()
+    ensures
+        final(v)@.len() == old(v)@.len(),
+        forall|j: int, k2: u32, x2: usize| 0 <= j < old(v)@.len() ==> (#[trigger] hasv(final(v)@[j], k2, x2) <==> hasv(old(v)@[j], k2, x2) || (j == i && k2 == k && x2 == x)),
+{ unimplemented!() }
+
+/// the table of within-word automaton ids (get_subwords builds it)
+impl View for IndexMap<DFAId, usize> {
+    type V = Map<DFAId, usize>;
+    uninterp spec fn view(&self) -> Map<DFAId, usize>;
+}
+
+impl IndexMap<DFAId, usize> {
+    #[verifier::external_body]
+    pub fn get(&self, k: &DFAId) -> (r: Option<&usize>)
+        ensures
+            r is Some <==> self@.contains_key(*k),
+            r is Some ==> *r->0 == self@[*k],
+    { unimplemented!() }
+}
+
 } // verus!
